@@ -10,9 +10,9 @@ git diff --quiet -- luna && { echo "worktree has no change applied; applying pat
 echo "== demo with change (expect non-zero)"; timeout 900 /venv/bin/python -W ignore out/demo.py > /tmp/seed/$ID.demo_with.log 2>&1; WITH=$?; echo "exit $WITH"; tail -3 /tmp/seed/$ID.demo_with.log
 echo "== luna tests with change (expect 93 passed)"; T=$(timeout 1800 /venv/bin/python -m pytest -q -p no:cacheprovider --timeout=900 tests 2>&1 | tail -1); echo "$T"
 git diff -- luna > /tmp/seed/$ID.applied.diff
-git stash -q
+git apply -R /tmp/seed/$ID.applied.diff
 echo "== demo without change (expect 0)"; timeout 900 /venv/bin/python -W ignore out/demo.py > /tmp/seed/$ID.demo_without.log 2>&1; WITHOUT=$?; echo "exit $WITHOUT"; tail -2 /tmp/seed/$ID.demo_without.log
-git stash pop -q
+git apply /tmp/seed/$ID.applied.diff
 unset PYTHONPATH
 cd /verif
 RES=""
@@ -23,3 +23,21 @@ for C in $CHECKS; do
   RES="$RES $C:$RC"
 done
 echo "SUMMARY $ID demo_with=$WITH demo_without=$WITHOUT tests='$T' checks=$RES"
+# archive under /verif/seeded/<id>/
+mkdir -p $DST && cp $OUT/patch.diff $OUT/demo.py $DST/ && cp $OUT/notes.md $DST/notes.md 2>/dev/null
+NEEDS="${NEEDS:-see notes.md}"
+/venv/bin/python - "$ID" "$WITH" "$WITHOUT" "$T" "$RES" "$NEEDS" <<'PY'
+import json, sys
+pid, w, wo, t, res, needs = sys.argv[1:7]
+checks = {r.split(":")[0]: int(r.split(":")[1]) for r in res.split()}
+meta = dict(property=pid, breaks=pid, needs_to_manifest=needs,
+            origin="independent sub-agent given only the property text and a scratch worktree (no access to /verif)",
+            confirmed=dict(demo_exit_with_change=int(w), demo_exit_without_change=int(wo), luna_tests_with_change=t,
+                           commands=["cd <worktree> && PYTHONPATH=<worktree> /venv/bin/python out/demo.py (with / without patch)",
+                                     "cd <worktree> && PYTHONPATH=<worktree> /venv/bin/python -m pytest -q -p no:cacheprovider --timeout=900 tests",
+                                     "VERIF_REPO=<worktree> ./check <id> (quick tier, seed 1)"]),
+            check_exit_codes=checks,
+            detected={k: (v == 1) for k, v in checks.items()})
+json.dump(meta, open(f"/verif/seeded/{pid}/meta.json", "w"), indent=1)
+print("archived", pid, meta["detected"])
+PY
